@@ -45,6 +45,7 @@ class Obl:
     params: dict = field(default_factory=dict)    # for kind 'py'
     tiers: tuple = ("quick", "thorough")
     twin: bool = True             # reachability twin (xh)
+    pre: str | None = None        # extra precondition in every tier (used to split one harness into parallel obligations)
     quick_pre: str | None = None  # extra precondition (tighter bounds) applied in the quick tier only
     timeout_thorough: int | None = None
     replay: str | None = None     # "module:func" real-API replay taking the cex
@@ -242,7 +243,7 @@ def write_replay(prop: str, obl: Obl, body: str, harness_path: Path | None):
 
 
 def run_obligation(prop: str, obl: Obl, workroot: Path, tier: str = "quick") -> Verdict:
-    tpre = [obl.quick_pre] if (tier == "quick" and obl.quick_pre) else []
+    tpre = ([obl.pre] if obl.pre else []) + ([obl.quick_pre] if (tier == "quick" and obl.quick_pre) else [])
     if tier == "thorough" and obl.timeout_thorough:
         obl = replace(obl, timeout=obl.timeout_thorough)
     wd = Path(tempfile.mkdtemp(prefix=re.sub(r"\W", "_", obl.id) + "_", dir=workroot))
